@@ -3,6 +3,7 @@
 package main
 
 import (
+	"encoding/base64"
 	"bufio"
 	"encoding/json"
 	"io"
@@ -21,6 +22,7 @@ type verifCase struct {
 	ID     int               `json:"id"`
 	Dir    string            `json:"dir"`
 	Files  map[string]string `json:"files,omitempty"`
+	FilesB64 map[string]string `json:"files_b64,omitempty"` // contents that are not valid UTF-8
 	Argv   []string          `json:"argv"`
 	Order  string            `json:"order,omitempty"`
 	Dump   string            `json:"dump,omitempty"` // "", "hash", "text"
@@ -127,6 +129,15 @@ func verifRunCase(c *verifCase, capOut, capErr *os.File) *verifResult {
 			panic("verif worker: write " + name + ": " + err.Error())
 		}
 	}
+	for name, content := range c.FilesB64 {
+		b, err := base64.StdEncoding.DecodeString(content)
+		if err != nil {
+			panic("verif worker: base64 " + name + ": " + err.Error())
+		}
+		if err := os.WriteFile(name, b, 0o644); err != nil {
+			panic("verif worker: write " + name + ": " + err.Error())
+		}
+	}
 	capOut.Truncate(0)
 	capOut.Seek(0, io.SeekStart)
 	capErr.Truncate(0)
@@ -191,6 +202,9 @@ func verifRunCase(c *verifCase, capOut, capErr *os.File) *verifResult {
 	res.RangeExecs = verifrt.RangeExecs
 	if !c.Keep {
 		for name := range c.Files {
+			os.Remove(name)
+		}
+		for name := range c.FilesB64 {
 			os.Remove(name)
 		}
 	}
